@@ -224,29 +224,31 @@ func pcwResidue(c *Ctx, s *Sink, info *types.Info, env0 *linEnv, n int, as *ast.
 		s.Undecided(nil, key, as.Pos(), "guard on the insert length not found")
 		return
 	}
-	// the test that sends a pair to the wrapped computation: an if/else-if before G whose else-if condition is a getter call
+	// the circular option as the function reads it (a getter call named …Circular…, wherever it stands: an else-if, a
+	// switch clause, the argument of a helper), and the length of the sequence (a Len() call on the searched sequence)
 	var circ ast.Expr
 	var seqLen ast.Expr
-	for _, st := range block.List {
-		if st == ast.Stmt(G) {
-			break
+	ast.Inspect(loop.Body, func(m ast.Node) bool {
+		call, ok := m.(*ast.CallExpr)
+		if !ok || call.Pos() > G.Pos() {
+			return true
 		}
-		if ifs, ok := st.(*ast.IfStmt); ok {
-			if el, ok := ifs.Else.(*ast.IfStmt); ok {
-				circ = el.Cond
-				ast.Inspect(el.Body, func(m ast.Node) bool {
-					if call, ok := m.(*ast.CallExpr); ok && seqLen == nil {
-						if sel, ok := call.Fun.(*ast.SelectorExpr); ok && sel.Sel.Name == "Len" && len(call.Args) == 0 {
-							seqLen = call
-						}
-					}
-					return true
-				})
+		sel, ok := call.Fun.(*ast.SelectorExpr)
+		if !ok || len(call.Args) != 0 {
+			return true
+		}
+		if circ == nil && strings.Contains(sel.Sel.Name, "Circular") {
+			circ = call
+		}
+		if seqLen == nil && sel.Sel.Name == "Len" {
+			if t := info.TypeOf(sel.X); t != nil && strings.HasSuffix(namedTypeName(derefType(t)), "ApatSequence") {
+				seqLen = call
 			}
 		}
-	}
+		return true
+	})
 	if circ == nil || seqLen == nil {
-		s.Undecided(nil, key, G.Pos(), "no 'else if <circular>' computation of the length before the guard")
+		s.Undecided(nil, key, G.Pos(), "the function does not read the circular option and the length of the sequence before the guard")
 		return
 	}
 	env := env0.clone()
@@ -280,7 +282,7 @@ func pcwResidue(c *Ctx, s *Sink, info *types.Info, env0 *linEnv, n int, as *ast.
 	nc, bad := 0, ""
 	for _, pth := range paths {
 		pth.env.cur = pth.sys
-		// circular path: the negation of the circular test is infeasible here, and the first test failed
+		// circular path: the negation of the circular option is infeasible here
 		isCirc := true
 		for _, cs := range pth.env.cond(circ, true) {
 			if !append(append(linSys{}, pth.known()...), cs...).infeasible() {
@@ -302,7 +304,7 @@ func pcwResidue(c *Ctx, s *Sink, info *types.Info, env0 *linEnv, n int, as *ast.
 	}
 	switch {
 	case nc == 0:
-		s.Undecided(nil, key, G.Pos(), "no path through the circular computation of the length")
+		s.Undecided(nil, key, G.Pos(), "no path on which the circular option is known to hold")
 	case bad != "":
 		s.Fail(nil, key, G.Pos(), "on a circular template the insert length of a pair is not always a residue in 0..L-1 ("+bad+"): when the first site itself goes through the origin and the second starts inside its wrapped part, + L still leaves it negative and the pair is dropped (or, counted once too often, two touching sites give a whole turn of the circle), while the same molecule written from another origin keeps it (135 bp circle, sites at 40..60 and 55..75: the 130 bp amplicon is reported for 120 rotations and missing for the 15 rotations 41..55)")
 	default:
